@@ -146,10 +146,10 @@ def clauses():
         Clause("clamp", _clamp_case, check_clamp, quick=40, thorough=600, shrink=False,
                rule="generator: toy binary single-phase run (cap 120 steps), then the reached distribution scaled so that the precipitates hold 1.01-3 times the alloy content and handed to the model as the new state of one explicit step (preProcess, getdXdt, postProcess); minimum composition configured (3 in 4) or default; "
                     "oracle: the recorded matrix composition is exactly the configured minimum (the documented clamp); non-trivial: a non-default minimum"),
-        Clause("toy_binary", lambda: scen.toy_binary_scenario(cap=400, allow_elastic=True, allow_kbeta=True), check_toy_binary, quick=240, thorough=4000, shrink=False,
+        Clause("toy_binary", lambda: scen.toy_binary_scenario(cap=400, allow_elastic=True, allow_kbeta=True, allow_param_calls=True), check_toy_binary, quick=240, thorough=4000, shrink=False,
                rule="generator: toy binary scenarios (1-3 phases, stoichiometric or (1 in 3) with a precipitate composition that depends on the Gibbs-Thomson energy and is then taken per class from the model's table snapshot, mean of the class edges; alloy inside/outside the two-phase field, T constant / break points / function, gamma, V_alpha/V_beta in [0.5,2] given as Vm/Va/a, five site types, four shapes, constant strain energy, PBM grid, adaptive on/off, constraint toggles, Euler/RK4, 1-3 solve calls, cap 400 steps); "
                     "1 multi-call case in 5 sets the molar volume of a precipitate phase again between two solve calls (the oracle follows the scenario); oracle per accepted step: x0 = (1-sum f) x_matrix + sum_p ratio_p F_p sum_i n_i R_i^3 x_beta; non-trivial: total precipitate fraction > 1e-6 on >= 10 steps"),
-        Clause("toy_multi", lambda: scen.toy_multi_scenario(cap=250, allow_shapes=True), check_toy_binary, quick=120, thorough=2000, shrink=False,
+        Clause("toy_multi", lambda: scen.toy_multi_scenario(cap=250, allow_shapes=True, allow_param_calls=True), check_toy_binary, quick=120, thorough=2000, shrink=False,
                rule="generator: toy ternary scenarios (1-2 stoichiometric phases with a solubility product, both solutes balanced); same oracle for every solute; non-trivial as above"),
         Clause("real_db", lambda: scen.real_scenario(cap=100), check_toy_binary, quick=24, thorough=300, shrink=False,
                rule="generator: Al-Zr / Al3Zr (binary, stoichiometric, bulk / dislocation / grain-boundary sites) and Ni-Al-Cr gamma prime (ternary, non-stoichiometric, optional constant strain energy) on the shipped databases, constant temperature or a cooling ramp, both iterators, 1-2 solve calls, cap 100 steps; same oracle (for gamma prime the per-class precipitate composition is the model's table snapshot)"),
